@@ -30,6 +30,8 @@ def specs(tier):
          gridlab.circular_spec(extract=ex),
          gridlab.circular_spec(options={"number_of_processors": 1, "R0": 2.3, "B0": 3.2, "q_coefficients": [1.5, 2.0],
                                         "r_inner": 0.3, "r_outer": 0.9, "nx": 5, "ny": 12}, extract=ex)]
+    # a grid on which no two options that could be confused coincide (see gridlab.odd_spec)
+    S.append(gridlab.odd_spec("lsn", True, extract=ex))
     if tier == "thorough":
         S += [gridlab.tokamak_spec("usn", fpol="negconst", extract=ex),
               gridlab.tokamak_spec("udn", fpol="const", extract=ex),
@@ -38,6 +40,8 @@ def specs(tier):
               gridlab.tokamak_spec("cdn", fpol="linear", options={"orthogonal": False, "y_boundary_guards": 2}, extract=ex),
               gridlab.tokamak_spec("lsn", fpol="linear", options={"nx_core": 4, "nx_sol": 4, "ny_sol": 16, "ny_inner_divertor": 6,
                                                                   "ny_outer_divertor": 6}, extract=ex)]
+    if tier == "thorough":
+        S.append(gridlab.odd_spec("cdn", False, extract=ex))
     return S
 
 
@@ -140,6 +144,29 @@ def oracle_grid(res, g):
                 nsign += int((lhs[m] * rhs[m] < 0).sum())
                 if rel.max() > worst:
                     worst, where = float(rel.max()), (rid, yy)
+        # the cell-centre zShift against the y-face zShift of the same file: where the integrand keeps one sign the centre value lies between
+        # the values at the two faces of its cell (each output location is handed from region to region separately)
+        zc = v.get("zShift")
+        if zc is not None:
+            nout, nchk, wout = 0, 0, None
+            for rid, (sx, sy) in meta["region_indices"].items():
+                x0, x1, y0, y1 = sx.start, sx.stop, sy.start, sy.stop
+                for yy in range(y0, y1 - 1):
+                    lo, hi, c = z[x0:x1, yy], z[x0:x1, yy + 1], zc[x0:x1, yy]
+                    m = np.isfinite(lo) & np.isfinite(hi) & np.isfinite(c) & (np.abs(hi - lo) > 1e-12)
+                    if not m.any():
+                        continue
+                    t = (c[m] - lo[m]) / (hi[m] - lo[m])
+                    nchk += int(m.sum())
+                    out_ = (t < -1e-9) | (t > 1 + 1e-9)
+                    if out_.any():
+                        nout += int(out_.sum())
+                        wout = wout or (rid, yy, float(t[out_][0]))
+            res.extra.setdefault("zshift_centre_between_faces", {})[name] = {"cells": nchk, "outside": nout}
+            if nout:
+                bad.append(("zshift-centre-outside-faces:%s" % ("orth" if orth else "nonorth"),
+                            "zShift at %d of %d cell centres is not between zShift_ylow at the two y-faces of the cell (e.g. region %s, y=%d: fraction %.3g), so "
+                            "g_23 = g_33 d(zShift)/dy fails between the centre and ylow locations" % ((nout, nchk) + wout)))
         if nsign > 0:
             bad.append(("g23-zshift-sign:%s" % ("orth" if orth else "nonorth"),
                         "g_23 has the opposite sign of g_33*d(zShift)/dy at %d cell centres (worst ratio error %.3g)" % (nsign, worst)))
